@@ -32,6 +32,21 @@ from c01 import parse_reply, norm
 warnings.filterwarnings('ignore')
 
 
+class hard_time_limit(common.time_limit):
+    """like common.time_limit, but the alarm re-arms itself: Lcapy has bare `except:` clauses that swallow the first
+    TimeLimit, after which the computation would run unbounded"""
+
+    def __enter__(self):
+        import signal
+
+        def handler(signum, frame):
+            signal.alarm(1)
+            raise common.TimeLimit('time limit %ds' % self.seconds)
+        self.old = signal.signal(signal.SIGALRM, handler)
+        signal.alarm(self.seconds)
+        return self
+
+
 def run(chk, replay=None):
     from translate import tx_portops
     gtext, ginfo = tx_portops.generate(common.REPO)
@@ -387,7 +402,7 @@ def run(chk, replay=None):
 
     done = 0
     attempts = 0
-    plan = (['s'] * 10 + ['ivp'] * 8 + ['ac'] * 7 + ['dc'] * 5) if quick else (['s'] * 60 + ['ivp'] * 60 + ['ac'] * 50 + ['dc'] * 30)
+    plan = (['s'] * 8 + ['ivp'] * 7 + ['ac'] * 6 + ['dc'] * 4) if quick else (['s'] * 60 + ['ivp'] * 60 + ['ac'] * 50 + ['dc'] * 30)
     while done < len(plan) and attempts < 6 * len(plan):
         attempts += 1
         kind = plan[done]
@@ -406,7 +421,7 @@ def run(chk, replay=None):
             continue
         done += 1
         try:
-            with common.time_limit(60 if quick else 120):
+            with hard_time_limit(60 if quick else 120):
                 one_case(case)
         except common.TimeLimit:
             chk.count('lcapy-error', 'time-limit')
@@ -467,13 +482,18 @@ def run(chk, replay=None):
         def val():
             return R_(Fraction(rng.randint(1, 9), rng.randint(1, 3)))
         b = R_(Fraction(rng.randint(1, 9), rng.randint(1, 3)) * rng.choice([1, -1]))
-        pool = [lambda: lcapy.Vstep(b) + lcapy.R(val()), lambda: lcapy.R(val()) + lcapy.L(val()),
-                lambda: lcapy.C(val(), b) if i % 2 else lcapy.C(val()), lambda: lcapy.R(val()) + lcapy.C(val()),
-                lambda: lcapy.L(val(), b) + lcapy.R(val()), lambda: lcapy.Vstep(-b) + lcapy.L(val())]
-        n = 3 if i % 3 else 5
-        picks = rng.sample(range(len(pool)), n)
-        if 0 not in picks and 5 not in picks:
-            picks[rng.randrange(n)] = 0          # at least one source
+        if i % 3:
+            # three branches: a source branch, a reactive branch (with / without initial condition), a mixed series branch
+            pool = [lambda: lcapy.Vstep(b) + lcapy.R(val()),
+                    lambda: (lcapy.C(val(), b) if i % 2 else lcapy.C(val())),
+                    lambda: rng.choice([lcapy.R(val()) + lcapy.L(val()), lcapy.L(val(), b) + lcapy.R(val()), lcapy.R(val()) + lcapy.C(val())])]
+            picks = [0, 1, 2]
+        else:
+            # five branches of pairwise different kinds (nothing for simplify() to merge), second order at most
+            pool = [lambda: lcapy.Vstep(b) + lcapy.R(val()), lambda: lcapy.C(val()), lambda: lcapy.R(val()) + lcapy.L(val()),
+                    lambda: lcapy.Istep(-b), lambda: lcapy.R(val())]
+            picks = [0, 1, 2, 3, 4]
+        rng.shuffle(picks)
         net = pool[picks[0]]()
         for q in picks[1:]:
             net = net | pool[q]()
@@ -510,20 +530,29 @@ def run(chk, replay=None):
     ndirected_nets = 12 if quick else 48
     nodd_nets = 4 if quick else 30
     nmerge_nets = 6 if quick else 42
+    t_stream = _time.time()
     for k in range(nnets + ndirected_nets + nodd_nets + nmerge_nets):
         sp = Fraction(rng.randint(1, 9), rng.randint(2, 5))
+        t_net = _time.time()
+        fam = 'random-tree'
+        # the directed families always run; random trees only while the stream's time budget lasts (counted, never reported)
+        if k >= ndirected_nets + nodd_nets + nmerge_nets and _time.time() - t_stream > (55 if quick else 420):
+            chk.count('oneport', 'random-tree-skipped:stream-time-budget')
+            continue
         try:
-            with common.time_limit(10 if quick else 12):
+            with hard_time_limit(8 if quick else 12):
                 if k < ndirected_nets:
                     net = directed_net(k)
+                    fam = 'directed'
                 elif k < ndirected_nets + nodd_nets:
                     net = odd_parallel_net(k)
-                    chk.count('oneport', 'odd-parallel')
+                    fam = 'odd-parallel'
                 elif k < ndirected_nets + nodd_nets + nmerge_nets:
                     net = merge_net(k - ndirected_nets - nodd_nets)
-                    chk.count('oneport', 'mergeable-pair')
+                    fam = 'mergeable-pair'
                 else:
                     net = tree(1, rng.choice(['ser', 'par']))
+                chk.count('oneport', fam)
                 desc = str(net)
                 Voc0 = at(net.Voc.laplace(), sp, {})
                 Z0 = at(net.Z, sp, {})
@@ -533,9 +562,11 @@ def run(chk, replay=None):
                 IscN, YN = at(no.Isc.laplace(), sp, {}), at(no.Y, sp, {})
                 Isc0 = at(net.Isc.laplace(), sp, {})
         except (Exception, common.TimeLimit) as e:   # noqa
-            chk.count('lcapy-error', 'oneport:' + type(e).__name__)
+            chk.count('lcapy-error', 'oneport:%s:%s' % (fam, type(e).__name__))
             chk.case(('oneport-err', k), False)
+            timing['oneport:' + fam] = round(timing.get('oneport:' + fam, 0) + _time.time() - t_net, 1)
             continue
+        timing['oneport:' + fam] = round(timing.get('oneport:' + fam, 0) + _time.time() - t_net, 1)
         if None in (Voc0, Z0, VocT, ZT, IscN, YN, Isc0):
             chk.case(('oneport-nr', desc), False)
             continue
@@ -653,7 +684,7 @@ def run(chk, replay=None):
             chk.count('model', 'transfer:' + r[:20])
             continue
         try:
-            with common.time_limit(60):
+            with hard_time_limit(60):
                 cct = lcapy.Circuit(text)
                 got = {q: at(getattr(cct, q)(p1, m1, p2, m2), sp, {}) for q in want}
         except (Exception, common.TimeLimit) as e:   # noqa
@@ -675,7 +706,7 @@ def run(chk, replay=None):
         if not failed and k % 2 == 0:
             q = rng.choice(sorted(want))
             try:
-                with common.time_limit(60):
+                with hard_time_limit(60):
                     ren = {'0': 'gnd_'}
                     c2 = lcapy.Circuit('\n'.join(rename_ground(lines + extra)))
                     g2 = at(getattr(c2, q)(ren.get(p1, p1), ren.get(m1, m1), ren.get(p2, p2), ren.get(m2, m2)), sp, {})
@@ -724,6 +755,12 @@ def run(chk, replay=None):
             p1, p2 = '1', str(rng.randint(2, last))
             m1 = m2 = '0'
             family = 'ladder'
+            if k % 3 == 1:
+                # a second port whose negative terminal is not the common one
+                cand = sorted({n_ for l in lines for n_ in l.split()[1:3]} - {'0', p2, p1})
+                if cand:
+                    m2 = rng.choice(cand)
+                    family = 'ladder-floating-port2'
         text = '\n'.join(lines)
         body = ' || '.join(lines)
         chk.count('twoport-family', family)
@@ -735,7 +772,7 @@ def run(chk, replay=None):
             continue
         mZ = [Fraction(x_) for x_ in rz.split()[1:]]
         try:
-            with common.time_limit(90):
+            with hard_time_limit(90):
                 cct = lcapy.Circuit(text)
                 got = {}
                 for nm in ('Z', 'Y', 'A', 'H'):
